@@ -1,0 +1,37 @@
+//go:build verif
+
+package bcd
+
+// Lemma functions for the /verif VC generator (govc): client code that is verified
+// against the contracts of Encode and Decode only (calls are replaced by the callee's
+// contract, never its body). Compiled only with -tags verif.
+
+// Decode(Encode(s)) is s, left-padded with one '0' when len(s) is odd.
+func lemmaDecodeEncode(s string) (string, bool) {
+	b, err := Encode(s)
+	if err != nil {
+		return "", false
+	}
+
+	r, err := Decode(*b)
+	if err != nil {
+		return "", false
+	}
+
+	return r, true
+}
+
+// Encode(Decode(b)) is b.
+func lemmaEncodeDecode(b []byte) ([]byte, bool) {
+	s, err := Decode(b)
+	if err != nil {
+		return nil, false
+	}
+
+	e, err := Encode(s)
+	if err != nil {
+		return nil, false
+	}
+
+	return *e, true
+}
